@@ -139,4 +139,142 @@ theorem trail_comment_blocks_source (cs : CharSpec) (hs : TrailSpec cs) (u a sp 
   rw [hlf]
   exact .cons rfl (lexFrom_offset_sameKT cs _ _ x)
 
+/-- **Trailing blanks in the source: the same blocks** (as `trail_comment_blocks_source`, the
+    filler being the one whitespace token). -/
+theorem trail_spaces_blocks_source (cs : CharSpec) (hs : TrailSpec cs) (hlf' : cs.ws '\n' = false)
+    (u a sp x : List Char) (L : List (List Tok))
+    (hu : lex cs u = L.flatten) (hL : ∀ l ∈ L, IsLine l)
+    (hne : sp ≠ []) (hsp : ∀ y ∈ sp, y = ' ') (ha : a ≠ [])
+    (hnl : ∀ t ∈ lexFrom cs (utf8Len u) a, (t.kind != .newline) = true)
+    (hend : EndOK cs (some ' ') (lexFrom cs (utf8Len u) a)) (hend' : EndOK cs (some '\n') (lexFrom cs (utf8Len u) a)) :
+    ∃ F nl, F = [(⟨.ws, sp, utf8Len u + utf8Len a⟩ : Tok)] ∧
+      nl = (⟨.newline, ['\n'], utf8Len u + utf8Len a⟩ : Tok) ∧
+      LRel (fun b' b => ∃ m, LRel SameKT b' m ∧ InsB (lexFrom cs (utf8Len u) a) F [nl] m b)
+        (blocksOf (lex cs (u ++ (a ++ (sp ++ '\n' :: x)))))
+        (blocksOf (lex cs (u ++ (a ++ '\n' :: x)))) := by
+  refine ⟨_, _, rfl, rfl, ?_⟩
+  unfold lex at hu ⊢
+  have hnu : EndsNL (lexFrom cs 0 u) := by rw [hu]; exact lines_endsNL L hL
+  have hA : lexFrom cs (utf8Len u) a ≠ [] := by
+    intro h0
+    have := lexFrom_tile cs (utf8Len u) a
+    rw [h0] at this
+    exact ha (by simpa using this.symm)
+  have hlf : ∀ o, lexFrom cs o ('\n' :: x) = ⟨.newline, ['\n'], o⟩ :: lexFrom cs (o + utf8Len ['\n']) x := by
+    intro o
+    rw [lexFrom_cons, lexOne_lf]
+    simp
+  have e1 : lexFrom cs 0 (u ++ (a ++ (sp ++ '\n' :: x))) =
+      L.flatten ++ (lexFrom cs (utf8Len u) a ++ [⟨.ws, sp, utf8Len u + utf8Len a⟩] ++
+        lexFrom cs (utf8Len u + utf8Len a + utf8Len sp) ('\n' :: x)) := by
+    rw [lexFrom_append_nl cs 0 u _ hnu, hu, Nat.zero_add,
+      trail_lex_spaces cs hs (utf8Len u) a sp ('\n' :: x) hne hsp (by simp [hlf']) hend]
+    simp
+  have e2 : lexFrom cs 0 (u ++ (a ++ '\n' :: x)) =
+      L.flatten ++ (lexFrom cs (utf8Len u) a ++ [⟨.newline, ['\n'], utf8Len u + utf8Len a⟩] ++
+        lexFrom cs (utf8Len u + utf8Len a + utf8Len ['\n']) x) := by
+    rw [lexFrom_append_nl cs 0 u _ hnu, hu, Nat.zero_add,
+      trail_lexFrom_append cs (utf8Len u) a ('\n' :: x) (by simpa using hend'), hlf]
+    simp
+  rw [e1, e2]
+  have hyp : InsHyp (lexFrom cs (utf8Len u) a) [⟨.ws, sp, utf8Len u + utf8Len a⟩]
+      [⟨.newline, ['\n'], utf8Len u + utf8Len a⟩] :=
+    ⟨⟨lexFrom cs (utf8Len u) a, _, rfl, hnl, rfl⟩, hA, by simp, by
+      intro t ht
+      simp only [List.mem_cons, List.not_mem_nil, or_false] at ht
+      subst ht; rfl⟩
+  apply trail_blocks_insert_rel sameKT_kindPres (fun _ => rfl) hyp L hL
+  rw [hlf]
+  exact .cons rfl (lexFrom_offset_sameKT cs _ _ x)
+
+/-- which line ends are token boundaries in front of the line feed: as `trail_spellOK_space`, and
+    a line comment may also stand there; the token must not be a lone CR (it would join the LF) -/
+theorem trail_spellOK_lf (cs : CharSpec) (hcs : CrlfSpec cs) {k : TK} {text : List Char}
+    (h : spellOK cs k text none = true) (hcr : text ≠ ['\r'])
+    (hbc : k = .blockComment → ['-', ']'] <:+ text.tail.tail) (hesc : k = .escaped → text.length = 2) :
+    spellOK cs k text (some '\n') = true := by
+  have hlook : ∀ c : Char, c ≠ '\r' → ∀ look, fallsThrough c look = true → fallsThrough c (some '\n') = true := by
+    intro c hc look hf
+    simp only [fallsThrough, Bool.and_eq_true, bne_iff_ne, ne_eq, Bool.not_eq_true', Option.isNone_iff_eq_none] at hf ⊢
+    obtain ⟨⟨⟨⟨⟨⟨⟨h1, h2⟩, h3⟩, h4⟩, h5⟩, h6⟩, _⟩, _⟩ := hf
+    refine ⟨⟨⟨⟨⟨⟨⟨h1, h2⟩, h3⟩, h4⟩, h5⟩, h6⟩, ?_⟩, ?_⟩ <;> simp [hc]
+  cases text with
+  | nil => simp [spellOK] at h
+  | cons c r =>
+    cases k
+    case ws =>
+      simp only [spellOK, Bool.and_eq_true, Bool.not_eq_true'] at h ⊢
+      obtain ⟨⟨⟨h1, h2⟩, h3⟩, _⟩ := h
+      refine ⟨⟨⟨?_, h2⟩, h3⟩, by simpa using hcs.ws_lf⟩
+      cases r with
+      | nil =>
+        have hc : c ≠ '\r' := by intro hc; subst hc; exact hcr rfl
+        simpa using hlook c hc _ h1
+      | cons d r => simpa using h1
+    case lineComment =>
+      simp only [spellOK, Bool.and_eq_true, Bool.or_eq_true] at h ⊢
+      exact ⟨h.1, Or.inr (by simp)⟩
+    case escaped =>
+      have := hesc rfl
+      simp only [spellOK, Bool.and_eq_true, beq_iff_eq, Bool.or_eq_true] at h ⊢
+      refine ⟨h.1, Or.inl ?_⟩
+      simpa using this
+    case blockComment =>
+      have := hbc rfl
+      simp only [spellOK, Bool.and_eq_true, beq_iff_eq, Bool.or_eq_true, List.isSuffixOf_iff_suffix] at h ⊢
+      refine ⟨h.1, Or.inl ?_⟩
+      cases r with
+      | nil => simp at h
+      | cons d r => simpa using this
+    case word =>
+      simp only [spellOK, Bool.and_eq_true, Bool.not_eq_true'] at h ⊢
+      obtain ⟨⟨⟨⟨h1, h2⟩, h3⟩, h4⟩, _⟩ := h
+      refine ⟨⟨⟨⟨?_, h2⟩, h3⟩, h4⟩, by simpa using hcs.word_lf⟩
+      cases r with
+      | nil =>
+        have hc : c ≠ '\r' := by intro hc; subst hc; exact hcr rfl
+        simpa using hlook c hc _ h1
+      | cons d r => simpa using h1
+    case punct =>
+      simp only [spellOK, Bool.and_eq_true, Bool.not_eq_true', List.isEmpty_iff] at h ⊢
+      obtain ⟨⟨⟨h1, h2⟩, h3⟩, h4⟩ := h
+      subst h4
+      have hc : c ≠ '\r' := by intro hc; subst hc; exact hcr rfl
+      exact ⟨⟨⟨by simpa using hlook c hc _ h1, h2⟩, h3⟩, rfl⟩
+    case int =>
+      simp only [spellOK, Bool.and_eq_true, Bool.not_eq_true'] at h ⊢
+      exact ⟨h.1, by decide⟩
+    case zeroInt =>
+      simp only [spellOK, Bool.and_eq_true, Bool.not_eq_true'] at h ⊢
+      exact ⟨h.1, by decide⟩
+    case textStep =>
+      simp only [spellOK, Bool.and_eq_true] at h ⊢
+      exact ⟨h.1, by decide⟩
+    case minus =>
+      simp only [spellOK, Bool.and_eq_true] at h ⊢
+      exact ⟨h.1, by decide⟩
+    all_goals simpa [spellOK] using h
+
+/-- the readable form of `EndOK … (some '\n')`: the line does not end inside a block comment, in a
+    lone backslash or in a lone carriage return -/
+def CleanEndLF (ts : List Tok) : Prop :=
+  ∀ l, ts.getLast? = some l → l.text ≠ ['\r'] ∧
+    (l.kind = .blockComment → ['-', ']'] <:+ l.text.tail.tail) ∧ (l.kind = .escaped → l.text.length = 2)
+
+theorem trail_endOK_lf (cs : CharSpec) (hcs : CrlfSpec cs) (o : Nat) (a : List Char)
+    (h : CleanEndLF (lexFrom cs o a)) : EndOK cs (some '\n') (lexFrom cs o a) := by
+  intro l hl
+  obtain ⟨h1, h3, h4⟩ := h l hl
+  have hws := lexFrom_wellSpelled cs o a
+  obtain ⟨T, hT⟩ : ∃ T, lexFrom cs o a = T ++ [l] := by
+    rcases List.eq_nil_or_concat (lexFrom cs o a) with h0 | ⟨T, l', hT⟩
+    · rw [h0] at hl; simp at hl
+    · refine ⟨T, ?_⟩
+      have : lexFrom cs o a = T ++ [l'] := by simpa using hT
+      rw [this] at hl ⊢
+      simp at hl
+      rw [hl]
+  rw [hT] at hws
+  exact trail_spellOK_lf cs hcs (trail_wellSpelled_last cs T l hws) h1 h3 h4
+
 end Cook
